@@ -27,7 +27,8 @@ from .. import narrow_corr as ncorr
 
 PID = "C02"
 PROOF_FILES = ["theories/Props/C02.v", "theories/Checker/NarrowB.v", "theories/Checker/Deep.v",
-               "theories/Checker/Shapes.v", "theories/Spec/Convex.v", "theories/Proofs/JoltLoop.v", "theories/Model/JoltLoop.v", "theories/Model/GjkLibccd.v"]
+               "theories/Checker/Shapes.v", "theories/Spec/Convex.v", "theories/Proofs/JoltLoop.v", "theories/Model/JoltLoop.v", "theories/Model/GjkLibccd.v",
+               "theories/Proofs/GjkLibccd.v"]
 BOOL_FNS = ["isect_jolt", "isect_libccd", "isect_mpr", "isect_nesterov", "isect_nesterov_prim"]
 PUBLIC = dict(isect_jolt="gjk_intersection_jolt", isect_libccd="gjk_intersection_libccd", isect_mpr="mpr_intersection",
               isect_nesterov="gjk_nesterov_accelerated_intersection",
@@ -204,7 +205,7 @@ def loop_correspondence(R, cases, tier):
     step = max(1, len(cases) // n)
     tc = [dict(c1=c["c1"], c2=c["c2"], fns=["intersection"], kw={}, kw_i={}, meta=c["meta"]) for c in cases[::step]]
     try:
-        nwk = min(cm.NCPU, max(1, len(tc) // 6))
+        nwk = min(6, max(1, len(tc) // 12))
         chunks = [tc[i::nwk] for i in range(nwk)]
         res = cm.run_impl_parallel(PID, "jolttrace", [dict(cases=ch) for ch in chunks], timeout=1500, tag="trace")
         out = [None] * len(tc)
@@ -249,7 +250,7 @@ def libccd_mpr_correspondence(R, cases, tier):
     step = max(1, len(cases) // n)
     tc = [dict(c1=c["c1"], c2=c["c2"], fns=["libccd", "mpr"], kw={}, meta=c["meta"]) for c in cases[::step]]
     try:
-        nwk = min(cm.NCPU, max(1, len(tc) // 6))
+        nwk = min(6, max(1, len(tc) // 12))
         chunks = [tc[i::nwk] for i in range(nwk)]
         res = cm.run_impl_parallel(PID, "narrowbtrace", [dict(cases=ch) for ch in chunks], timeout=1500, tag="trace2")
         out = [None] * len(tc)
